@@ -553,6 +553,17 @@ fn run_inner(cfg: &Config, worker: usize, program: &[u8], w: &World, plan: &Plan
                 drop(r);
                 Ok((Some(wr), SinkHandle::Nothing))
             }
+            7 => {
+                // a full device: every write fails with ENOSPC, by the kernel itself
+                Ok((Some(OwnedFd::from(fs::OpenOptions::new().write(true).open("/dev/full")?)), SinkHandle::Nothing))
+            }
+            8 => {
+                // `>> file`: append mode, file not empty beforehand
+                let p = io_dir.join(name);
+                fs::write(&p, b"")?;
+                let f = fs::OpenOptions::new().append(true).open(&p)?;
+                Ok((Some(OwnedFd::from(f)), SinkHandle::File(p)))
+            }
             _ => {
                 let p = io_dir.join(name);
                 Ok((Some(open_rw(&p)?), SinkHandle::File(p)))
